@@ -67,6 +67,8 @@ def _frozen_layout_over_window_reduction(prog, vals):
     L = len(prog["leaves"])
     red_over_swv = set()
     for k, s in enumerate(prog["stmts"]):
+        if s["op"] == "swv_reduce":  # C20's combined statement
+            red_over_swv.add(L + k)
         if s["op"] in ("sum", "prod", "min", "max", "any", "all", "mean", "var", "std"):
             src = s["args"][0]
             if src >= L and prog["stmts"][src - L]["op"] == "sliding_window_view":
@@ -84,7 +86,7 @@ def _frozen_layout_over_window_reduction(prog, vals):
         return any(depends(a, seen) for a in prog["stmts"][v - L]["args"])
 
     for k, s in enumerate(prog["stmts"]):
-        if s["op"] in ("broadcast_to", "reshape", "ravel", "sliding_window_view", "repeat") and any(depends(a) for a in s["args"]):
+        if s["op"] in ("broadcast_to", "reshape", "ravel", "sliding_window_view", "swv_reduce", "repeat", "pad") and any(depends(a) for a in s["args"]):
             return True
     return False
 
